@@ -56,6 +56,19 @@ def generate(seed, tier="quick"):
         n = len(f["sites"])
         f["sites"][f"d{n}"] = {"op": "eq", "place": drng.choice(["direct", "func"]), "arg": V.expr(oldv), "prev": oldv}
         drng.choice(f["tests"])["events"].append({"t": "cmp", "eid": f"ed{n}", "site": f"d{n}", "vals": [newv], "style": drng.choice(["assert", "rec"])})
+    crng = sub(seed, "classchange")
+    if crng.random() < 0.2:
+        # previous content is a constructor call of ANOTHER class served by the same kind of adapter (bare or nested in a list)
+        f = prog["files"][0]
+        pairs = [("DC", "a", "DCD", "x"), ("DCD", "x", "DC", "a"), ("DC", "a", "Outer.IDC", "v"), ("AT", "p", "DC", "a"), ("PM", "m", "DC", "a"), ("NT", "f", "DC", "a")]
+        oc, of, nc, nf = crng.choice(pairs)
+        oldv = ["dc", oc, [[of, ["int", crng.randint(0, 9)]]] + ([["g", ["int", 1]]] if oc == "NT" else [])]
+        newv = ["dc", nc, [[nf, ["int", crng.randint(0, 9)]]]]
+        if crng.random() < 0.4:
+            oldv, newv = ["list", [oldv, ["int", 1]]], ["list", [newv, ["int", 1]]]
+        n = len(f["sites"])
+        f["sites"][f"k{n}"] = {"op": "eq", "place": "direct", "arg": V.expr(oldv), "prev": oldv}
+        crng.choice(f["tests"])["events"].append({"t": "cmp", "eid": f"ek{n}", "site": f"k{n}", "vals": [newv], "style": crng.choice(["assert", "rec"])})
     mrng = sub(seed, "mutation")
     if mrng.random() < 0.15:
         W.add_mutation_test(mrng, prog["files"][0], style=mrng.choice(["rec", "assert"]), prev=True)
